@@ -119,7 +119,30 @@ def _config_strategy(tier):
     return st.tuples(cls, shape, dyn).map(build)
 
 
+VARIANT_FLAGS = [(True, False), (True, True), (False, False), (False, True)]  # (parametrize, return_t_hat)
+
+
+def _variants_strategy(tier):
+    return st.fixed_dictionaries({
+        "family": st.just("variants"),
+        "cls": st.sampled_from(["R", "R", "NR"]),
+        "nc": st.sampled_from([1, 2, 2]),
+        "np": st.sampled_from([1, 2]),
+        "L": st.sampled_from([0, 1]),
+        "phsp": st.sampled_from(kmat.REAL_ABOVE_THRESHOLD),
+        "order": st.permutations([0, 1, 2, 3]),
+        "clear_cache": st.sampled_from([False, False, False, True]),
+        "point_seed": st.lists(st.integers(0, 255), min_size=6, max_size=6),
+        "batch": st.just(BATCH[tier]),
+    })
+
+
 def strategy(tier):
+    main = _main_strategy(tier)
+    return st.one_of(main, main, main, main, _variants_strategy(tier))
+
+
+def _main_strategy(tier):
     return st.fixed_dictionaries({
         "config": _config_strategy(tier),
         "regime": st.sampled_from([
@@ -139,6 +162,16 @@ def fixed_cases(tier):
          "point_seed": 0, "batch": 1},
         {"config": _cfg("R", 1, 1, 0, "1", "PhaseSpaceFactorComplex", "doit"), "regime": "generic",
          "point_seed": 0, "batch": 64},
+        # call histories over the flag combinations (T-hat requested before / after T, cache kept / cleared)
+        *[
+            {"family": "variants", "cls": "R", "nc": 2, "np": 1, "L": 0, "phsp": "PhaseSpaceFactor",
+             "order": order, "clear_cache": True, "point_seed": 1, "batch": 64}
+            for order in ([3, 2, 1, 0], [0, 1, 2, 3], [1, 0, 3, 2])
+        ],
+        {"family": "variants", "cls": "NR", "nc": 2, "np": 2, "L": 0, "phsp": "PhaseSpaceFactor",
+         "order": [2, 0, 1, 3], "clear_cache": False, "point_seed": 2, "batch": 64},
+        *([{"family": "variants", "cls": "R", "nc": 3, "np": 1, "L": 0, "phsp": "PhaseSpaceFactor",
+            "order": [3, 2, 0, 1], "clear_cache": False, "point_seed": 3, "batch": 64}] if tier == "thorough" else []),
     ]
 
 
@@ -186,6 +219,8 @@ def _point(vals, k) -> dict:
 
 
 def run_case(desc) -> Result:
+    if desc.get("family") == "variants":
+        return _run_variants(desc)
     cfg = desc["config"]
     nc, npo, rel = cfg["nc"], cfg["np"], cfg["cls"] == "R"
     regime = desc["regime"]
@@ -279,3 +314,175 @@ def run_case(desc) -> Result:
         vacuous=int((~asserted).sum()), near_pole=n_near, worst_unitarity_over_tol=worst_u,
         worst_symmetry_over_tol=worst_s, max_cond=float(np.max(np.where(asserted, cond, 1.0))),
     )
+
+
+# ----------------------------------------------------------------------- flag variants and call histories
+def _unitarity_defect(t):
+    n = t.shape[-1]
+    s_mat = np.eye(n) + 2j * t
+    unit = np.abs(np.einsum("bji,bjk->bik", s_mat.conj(), s_mat) - np.eye(n)).max(axis=(1, 2))
+    sym = np.abs(t - t.transpose(0, 2, 1)).max(axis=(1, 2))
+    return unit, sym
+
+
+@functools.lru_cache(maxsize=64)
+def _compile_variant(matrix, nc, npo):
+    """`matrix` is an ImmutableMatrix: equal matrices (whatever history produced them) share one compilation."""
+    return kmat.compile_matrix(matrix, "compose", (nc, npo))
+
+
+def _eval_symbolic(matrix, nc, k_num, rho_num):
+    """Numeric value of an unparametrised matrix in the symbols K[i, j] and rho<i>; None + names if it has others."""
+    plain = {}
+    for atom in sorted(matrix.atoms(sp.Indexed), key=str):
+        idx = atom.indices
+        if str(atom.base) == "K" and len(idx) == 2 and all(i.is_Integer and 0 <= int(i) < nc for i in idx):
+            plain[atom] = sp.Symbol(f"_k_{int(idx[0])}_{int(idx[1])}")
+    exprs = [e.xreplace(plain) for e in matrix]
+    k_syms = [sp.Symbol(f"_k_{i}_{j}") for i in range(nc) for j in range(nc)]
+    rho_syms = [sp.Symbol(f"rho{i}") for i in range(nc)]
+    args = [*k_syms, *rho_syms]
+    extra = set().union(*[e.free_symbols for e in exprs]) - set(args)
+    if extra:
+        return None, sorted(map(str, extra))
+    fn = sp.lambdify(args, exprs, "numpy", cse=True)
+    vals = [k_num[:, i, j].astype(complex) for i in range(nc) for j in range(nc)]
+    vals += [rho_num[:, i].astype(complex) for i in range(nc)]
+    with np.errstate(all="ignore"):
+        out = fn(*vals)
+    batch = len(k_num)
+    out = np.stack([np.broadcast_to(np.asarray(v, dtype=complex), (batch,)) for v in out], axis=-1)
+    return out.reshape((batch, nc, nc)), None
+
+
+def _run_variants(desc) -> Result:
+    """`formulate` with every combination of `parametrize` / `return_t_hat`, called in a drawn order on a kept or
+    cleared `_create_matrices` cache.  Unparametrised matrices are evaluated on random real symmetric K and
+    positive rho; the parametrised T-hat on real points above every threshold.  Asserted: S-matrix unitarity and
+    symmetry of T and of sqrt(rho)^* T-hat sqrt(rho) (the documented relation), and that both agree."""
+    from ampform.dynamics import kmatrix  # noqa: PLC0415
+
+    rel = desc["cls"] == "R"
+    nc, npo, ell, phsp = desc["nc"], desc["np"], desc["L"], desc["phsp"]
+    order = [int(k) for k in desc["order"]]
+    klass = kmatrix.RelativisticKMatrix if rel else kmatrix.NonRelativisticKMatrix
+    labels = [
+        "family=variants", f"cls={desc['cls']}", f"channels={nc}", f"poles={npo}", f"first_call={VARIANT_FLAGS[order[0]]}",
+        f"cache={'cleared' if desc['clear_cache'] else 'kept'}",
+    ]
+    if desc["clear_cache"]:
+        clear = getattr(getattr(klass, "_create_matrices", None), "cache_clear", None)
+        if clear is not None:
+            clear()
+    got = {}
+    for idx in order:
+        param, that = VARIANT_FLAGS[idx]
+        if that and not rel:
+            continue
+        kwargs = {"n_channels": nc, "n_poles": npo, "parametrize": param}
+        if rel:
+            kwargs.update(return_t_hat=that, angular_momentum=ell, meson_radius=1, phsp_factor=kmat.phsp_by_name(phsp))
+        m = under_test(f"{klass.__name__}.formulate", klass.formulate, **kwargs)
+        if tuple(m.shape) != (nc, nc):
+            return violation("bad_shape", True, labels, got=tuple(m.shape), flags=[param, that])
+        got[param, that] = sp.ImmutableMatrix(m)  # what the caller received at that moment
+
+    rng = np.random.default_rng(kmat.seed_entropy(desc["point_seed"], 909))
+    batch = int(desc["batch"])
+    a = rng.uniform(-1, 1, (batch, nc, nc)) * 10.0 ** rng.uniform(-1, 1, (batch, 1, 1))
+    k_num = (a + a.transpose(0, 2, 1)) / 2
+    rho_num = rng.uniform(0.05, 1.0, (batch, nc)) if rel else np.ones((batch, nc))
+    sq = np.sqrt(rho_num)
+    # conditioning of the inversion, from the inputs alone
+    mat = np.eye(nc) - 1j * rho_num[:, :, None] * k_num
+    cond = np.linalg.cond(mat) ** nc
+    tol = 1e-10 * cond
+    asserted = tol <= VACUOUS
+
+    def fail(kind, k, value, **extra):
+        return violation(kind, True, labels, got=float(value[k]), tolerance=float(tol[k]), index=k,
+                         K=k_num[k].tolist(), rho=rho_num[k].tolist(), order=order, **extra)
+
+    t_sym, extra = _eval_symbolic(got[False, False], nc, k_num, rho_num)
+    if t_sym is None:
+        return violation("bad_symbols", True, labels, got=extra, flags=[False, False])
+    unit, sym = _unitarity_defect(t_sym)
+    bad = asserted & ~(unit <= tol * np.maximum(1, np.abs(t_sym).max(axis=(1, 2))))
+    if bad.any():
+        return fail("not_unitary", int(np.flatnonzero(bad)[0]), unit, flags="parametrize=False")
+    bad = asserted & ~(sym <= tol * np.maximum(1, np.abs(t_sym).max(axis=(1, 2))))
+    if bad.any():
+        return fail("not_symmetric", int(np.flatnonzero(bad)[0]), sym, flags="parametrize=False")
+    worst = float(np.max(np.where(asserted, unit / tol, 0.0)))
+    if rel:
+        th_sym, extra = _eval_symbolic(got[False, True], nc, k_num, rho_num)
+        if th_sym is None:
+            return violation("bad_symbols", True, labels, got=extra, flags=[False, True])
+        t_from_hat = sq[:, :, None] * th_sym * sq[:, None, :]
+        scale = np.maximum(1, np.abs(t_from_hat).max(axis=(1, 2)))
+        unit, sym = _unitarity_defect(t_from_hat)
+        bad = asserted & ~(unit <= tol * scale)
+        if bad.any():
+            return fail("not_unitary", int(np.flatnonzero(bad)[0]), unit, flags="parametrize=False,return_t_hat=True")
+        bad = asserted & ~(sym <= tol * scale)
+        if bad.any():
+            return fail("not_symmetric", int(np.flatnonzero(bad)[0]), sym, flags="parametrize=False,return_t_hat=True")
+        diff = np.abs(t_from_hat - t_sym).max(axis=(1, 2))
+        bad = asserted & ~(diff <= tol * scale)
+        if bad.any():
+            return fail("t_hat_inconsistent", int(np.flatnonzero(bad)[0]), diff, flags="parametrize=False")
+        worst = max(worst, float(np.max(np.where(asserted, unit / tol, 0.0))))
+
+    # parametrised matrices on real points above every threshold, poles above every threshold
+    vals = kmat.draw_points(desc["point_seed"], "generic", nc, npo, batch)
+    vals["d"] = np.ones_like(vals["s"])
+    n_param = 0
+    t_param = None
+    for flags in ((True, False), (True, True)):
+        if flags not in got:
+            continue
+        try:
+            comp = under_test("doit+lambdify", _compile_variant, got[flags], nc, npo, allowed=(kmat.CompileError,))
+        except kmat.CompileError as exc:
+            return violation("bad_symbols", True, labels, got=str(exc), flags=list(flags))
+        t = comp(vals)
+        finite = np.isfinite(t).all(axis=(1, 2))
+        if not finite.all():
+            t = np.where(finite[:, None, None], t, comp(vals, as_complex=True))
+        if flags[1]:
+            with np.errstate(all="ignore"):
+                sq_ref = np.sqrt(kmat.rho_ref(phsp, vals["s"][:, None], vals["m_a"], vals["m_b"]))
+            t = sq_ref.conj()[:, :, None] * t * sq_ref[:, None, :]
+        with np.errstate(all="ignore"):
+            kp = kmat.ref_k_unitary(vals, relativistic=rel, phsp=phsp, ell=ell)
+            kmax = np.abs(kp).max(axis=(1, 2))
+        kmax = np.where(np.isfinite(kmax), np.maximum(kmax, 1.0), np.inf)
+        pcond = kmax ** max(nc - 1, 0)
+        ok_pts = (pcond * TOL_UNITARY <= VACUOUS) & (kmat.poles_above_thresholds(vals) if rel else True)
+        ok_pts = ok_pts & np.isfinite(t).all(axis=(1, 2))
+        unit, sym = _unitarity_defect(np.where(ok_pts[:, None, None], t, 0))
+        tnorm = np.maximum(np.abs(t).max(axis=(1, 2)), 1e-300)
+        bad = ok_pts & ~(unit <= TOL_UNITARY * pcond)
+        if bad.any():
+            k = int(np.flatnonzero(bad)[0])
+            return violation("not_unitary", True, labels, got=float(unit[k]), tolerance=float(TOL_UNITARY * pcond[k]),
+                             flags=f"parametrize=True,return_t_hat={flags[1]}", point=_point(vals, k), order=order)
+        bad = ok_pts & ~(sym <= TOL_SYMMETRIC * tnorm * pcond)
+        if bad.any():
+            k = int(np.flatnonzero(bad)[0])
+            return violation("not_symmetric", True, labels, got=float(sym[k]), flags=f"parametrize=True,return_t_hat={flags[1]}",
+                             tolerance=float(TOL_SYMMETRIC * tnorm[k] * pcond[k]), point=_point(vals, k), order=order)
+        if flags[1] and t_param is not None:
+            diff = np.abs(t - t_param).max(axis=(1, 2))
+            bad = ok_pts & ~(diff <= TOL_UNITARY * pcond * np.maximum(1, tnorm))
+            if bad.any():
+                k = int(np.flatnonzero(bad)[0])
+                return violation("t_hat_inconsistent", True, labels, got=float(diff[k]), flags="parametrize=True",
+                                 tolerance=float(TOL_UNITARY * pcond[k] * max(1, tnorm[k])), point=_point(vals, k),
+                                 order=order)
+        if not flags[1]:
+            t_param = t
+        n_param += int(ok_pts.sum())
+    nontrivial = nc >= 2 and int(asserted.sum()) >= 20 and n_param >= 20
+    return ok(nontrivial, labels, points=batch, asserted_unparametrised=int(asserted.sum()),
+              asserted_parametrised=n_param, worst_unitarity_over_tol=worst)
